@@ -26,6 +26,8 @@ type Ctx struct {
 	Set    *report.Set
 	loaded []string
 	Samples []interface{}
+	// limbPositional names abstract Element inputs by position (for sibling comparison)
+	limbPositional bool
 	Extra   map[string]interface{}
 }
 
